@@ -251,6 +251,19 @@ def cmd_check(args):
             exit_code = 2
     if agg['evaluations'] == 0 and exit_code == 0:
         exit_code = 2
+    real_cases = None
+    if prop == 'C13' and tier == 'thorough' and exit_code == 0 and not args.runs:
+        # confirmation outside the search: a few cases on the real forkserver transport must
+        # give the trajectory of the serial run and of the simulated transport
+        from dst import parallel
+        try:
+            real_cases, problems = parallel.real_spot(n=4, base_seed=base_seed)
+        except Exception as e:
+            real_cases, problems = 0, ['real-transport spot check failed: %r' % (e,)]
+        for pr in problems:
+            print('HARNESS-ERROR: real forkserver spot check: %s' % pr)
+        if problems:
+            exit_code = 2
     wall = time.time() - t_begin
     distinct = len(agg['shapes'])
     ev = {
@@ -278,6 +291,7 @@ def cmd_check(args):
             'components': COMPONENTS,
             'shrink_executions': shrink_log.get('shrink_executions', 0),
             'determinism_digest_pairs_checked': digest_pairs,
+            'real_forkserver_cases_compared': real_cases,
             'harness_errors': len(agg['harness_errors']),
             'cut_short_by_time_cap': agg['cut_short'],
             'seeds': {'base': base_seed, 'runs': agg['evaluations']},
